@@ -120,7 +120,7 @@ def run_contention(nprocs, rounds, hows):
 
 
 # ------------------------------------------------------------------ C13 ----
-SCENARIOS = ['blocking', 'timed', 'with', 'ctx', 'nested', 'contended']
+SCENARIOS = ['blocking', 'timed', 'with', 'ctx', 'nested', 'contended', 'helper']
 HANG_GUARD_S = 15.0     # wall-clock hang guard only; contenders need milliseconds
 
 
@@ -150,6 +150,16 @@ def _scenario(name, path, F):
                 pass
             l.acquire()
             l.release()
+    elif name == 'helper':
+        # the holder launches a (short-lived) helper process while it holds the lock, through a spawn
+        # path that inherits inheritable descriptors; the helper outlives the holder
+        import subprocess
+        l = F.FileLock(path)
+        l.acquire()
+        subprocess.Popen(['sleep', '0.4'], close_fds=False, stdout=subprocess.DEVNULL, stderr=subprocess.DEVNULL)
+        l.release()
+        with l:
+            pass
     elif name == 'contended':
         # another descriptor of this very process holds the lock for a while: the victim polls
         other = F.FileLock(path)
